@@ -456,6 +456,12 @@ int64_t cmi_pool_acquire_inner(struct cmb_resourcepool *rpp,
                 const bool found = cmi_process_remove_holdable(victim, hrp);
                 cmb_assert_debug(found == true);
 
+                /*
+                 * Whatever the victim was waiting for is off, including a
+                 * wakeup call already on its way, e.g., for more of this pool.
+                 */
+                cmi_process_cancel_awaiteds(victim);
+
                 /* Schedule a wakeup for it, but do not switch context yet */
                 cmb_process_interrupt(victim, CMB_PROCESS_PREEMPTED, victim->priority);
 
